@@ -121,8 +121,12 @@ class Session:
         self.U, self.net = dyn.build(self.uspec, self.build_ops)
         self.refs = dyn.element_refs(cfg["topology"])
         self.steppable = not any(self.U.spec_of(r)["cls"] == "Origin" for r in self.refs if r[0] == "o")
-        self.inst = {k: make_engine(k, cfg.get("garbage", "empty")) for k in ENG_KINDS}
-        self.spies = {k: make_spy(make_engine(k, cfg.get("garbage", "empty"))) for k in ENG_KINDS}
+        g1 = g2 = cfg.get("garbage", "empty")
+        if cfg.get("const_defaults"):
+            g1, g2 = 20.0, 35.0  # every engine object fills unsupplied variables with its OWN constant
+        self.inst = {k: make_engine(k, g1) for k in ENG_KINDS}
+        self.spies = {k: make_spy(make_engine(k, g2)) for k in ENG_KINDS}
+        self.twin_const = None
         self.selected = M.engines.get_current_engine()
         self.last_sym = None
 
@@ -191,6 +195,11 @@ class Session:
     def init_for(self, U, op, kind):
         if kind == "numpy":
             vals = dyn.gen_values(op["vals"], self.uspec, self.refs)
+            if op.get("omit") and self.twin_const is not None:
+                # some variables are left to the engine in use, which must create them itself
+                for r, var in op["omit"]:
+                    if r in vals:
+                        vals[r].pop(var, None)
             return dyn.numeric_init(U, vals, op.get("zero_d", False))
         if op.get("sym") == "caller":
             return dyn.symbolic_init(U, self.refs, kind.upper())
@@ -217,6 +226,8 @@ class Session:
             el.step(net=net, **engine_kw, **rest)
 
     def twin_results(self, op, kind):
+        if "_const" in op:
+            self.twin_const = op["_const"]
         """The same step on never-used objects, *undisturbed*: explicit engine, and meanwhile
         the global slot (S2) holds an engine of the same kind, so that the twin's outcome
         cannot depend on this session's selection.  The slot is restored afterwards."""
@@ -225,7 +236,7 @@ class Session:
         M.engine = make_engine(kind, "empty")
         try:
             U2, net2 = dyn.build(self.uspec, self.build_ops)
-            eng2 = make_engine(kind, "empty")
+            eng2 = make_engine(kind, self.twin_const if (kind == "numpy" and self.twin_const is not None) else "empty")
             ic2 = self.init_for(U2, op, kind)
             self.full_step(net2, ic2, {"engine": eng2}, op["opts"], "net" if self.steppable else "elem")
         finally:
@@ -265,6 +276,10 @@ class Session:
         else:
             kind = explicit
             engine_kw = {"engine": self.inst[kind]}
+        # which constant the engine in use fills unsupplied NumPy variables with (None: not a constant)
+        used = engine_kw.get("engine") or getattr(sel0, "inner", sel0)
+        vt = getattr(used, "var_type", None)
+        self.twin_const = float(vt) if (kind == "numpy" and isinstance(vt, (int, float, np.floating)) and not isinstance(vt, bool)) else None
         ic = self.init_for(self.U, op, kind)
         hits0 = {k: sum(s.hits.values()) for k, s in self.spies.items()}
         order = np.random.default_rng(op.get("order", 0)) if mode == "elem" else None
@@ -304,31 +319,14 @@ class Session:
             except Exception:
                 total = 400
             seam = dyn.LineSeam(1 + int(fault["frac"] * total), dyn.interrupt_action)
-            try:
-                seam.run(call)
-                interrupted = False
-            except core.SimInterrupt:
-                interrupted = True
-            if interrupted:
-                # an explicit-engine step cut anywhere (initialisation or dynamics phase): the
-                # selection must be exactly what the Selector last chose, and the spies untouched
-                self.res.faults["interrupt"] += 1
-                self.res.probes["interrupt_in:" + seam.fired[1]] += 1
-                if M.engines.get_current_engine() is not self.selected or M.engine is not self.selected:
-                    raise Violation("C13/step-changed-selection", f"{where}: after an interrupted explicit-engine step "
-                                    f"(cut in {seam.fired[1]}) the selected engine is no longer the one last selected")
-                hits1 = {k: sum(s.hits.values()) for k, s in self.spies.items()}
-                for k in sorted(touched_spies):
-                    if hits1[k] != hits0[k]:
-                        raise Violation("C13/selected-engine-used-despite-explicit", f"{where}: spy {k} used before the interrupt")
-                self.last_sym = None
-                self.last_step = None
-                return "interrupted"
-            runner = lambda: None  # noqa: E731
+            runner = lambda: seam.run(call)  # noqa: E731
         else:
             runner = call
+        interrupted = False
         try:
             runner()
+        except core.SimInterrupt:
+            interrupted = True
         except Violation:
             raise
         except Exception as e:
@@ -346,6 +344,21 @@ class Session:
                 f"{where}: raised {type(e).__name__}: {str(e)[:200]} while an undisturbed explicit-engine twin succeeds "
                 f"(selected: {kind_of(sel0)})",
             )
+        if interrupted:
+            # an explicit-engine step cut anywhere (initialisation or dynamics phase): the selection
+            # must be exactly what the Selector last chose, and the spies untouched
+            self.res.faults["interrupt"] += 1
+            self.res.probes["interrupt_in:" + seam.fired[1]] += 1
+            if M.engines.get_current_engine() is not self.selected or M.engine is not self.selected:
+                raise Violation("C13/step-changed-selection", f"{where}: after an interrupted explicit-engine step "
+                                f"(cut in {seam.fired[1]}) the selected engine is no longer the one last selected")
+            hits1 = {k: sum(s.hits.values()) for k, s in self.spies.items()}
+            for k in sorted(touched_spies):
+                if hits1[k] != hits0[k]:
+                    raise Violation("C13/selected-engine-used-despite-explicit", f"{where}: spy {k} used before the interrupt")
+            self.last_sym = None
+            self.last_step = None
+            return "interrupted"
         # -- oracles
         if M.engines.get_current_engine() is not self.selected:
             raise Violation("C13/step-changed-selection", f"{where}: the step changed the selected engine")
@@ -398,7 +411,7 @@ class Session:
             self.res.probes[f"twin_compared:{kind}"] += 1
         self.res.nontrivial = True
         self.last_sym = (kind, op) if kind != "numpy" else None
-        self.last_step = (kind, op)
+        self.last_step = (kind, dict(op, _const=self.twin_const))
         return "ok"
 
     def do_compile(self, op, i):
@@ -513,8 +526,8 @@ class Session:
         Reference: the same link stepped with that engine on a twin that was initialised with
         the same numbers and never saw the other engine."""
         last = getattr(self, "last_step", None)
-        if last is None or last[0] != "numpy":
-            return "skipped"
+        if last is None or last[0] != "numpy" or last[1].get("omit"):
+            return "skipped"  # (engine-created variables of the last step cannot be handed to the twin)
         kind, sop = last
         l = op["el"]
         if l not in self.refs:
@@ -604,6 +617,9 @@ def gen_step(rng, cfg, tier, explicit="?"):
           "opts": dyn.gen_opts(rng), "sym": rng.choice(["auto", "caller"]), "order": rng.getrandbits(16),
           "check": rng.random() < (0.5 if tier == "quick" else 0.9), "more_out": rng.random() < 0.4}
     op["zero_d"] = True if (cfg["merging_ramp"] and "delta" in op["opts"]) else rng.random() < 0.3
+    if cfg.get("const_defaults") and "delta" not in op["opts"] and rng.random() < 0.5:
+        refs = dyn.element_refs(cfg["topology"])
+        op["omit"] = [[r, v] for r in refs for v in ("rho", "v", "w", "d", "r", "q", "v_ctrl") if rng.random() < 0.25]
     if explicit is not None and "switch" in cfg["enabled"] and rng.random() < 0.4:
         op["fault"] = {"kind": "switch", "frac": round(rng.random(), 4), "to": rng.choice(USES)}
     elif explicit is not None and "interrupt" in cfg["enabled"] and rng.random() < 0.3:
@@ -623,7 +639,7 @@ def generate(prop: str, run_seed: int, tier: str = "quick") -> dict:
     if rng.random() < 0.6:
         enabled.add("interrupt")
     cfg = {"topology": topo, "enabled": sorted(enabled), "merging_ramp": dyn.has_merging_ramp(topo, U),
-           "warnings_as_errors": rng.random() < 0.3,
+           "warnings_as_errors": rng.random() < 0.3, "const_defaults": rng.random() < 0.3,
            "garbage": rng.choice(["rand", "randn", 3.25]) if "garbage" in enabled else "empty"}
     ops = []
     n = rng.randint(4, 10) if tier == "quick" else rng.randint(6, 16)
@@ -653,6 +669,8 @@ def generate(prop: str, run_seed: int, tier: str = "quick") -> dict:
 def simplify_op(op: dict):
     if op.get("fault"):
         o = dict(op); del o["fault"]; yield o
+    if op.get("omit"):
+        o = dict(op); del o["omit"]; yield o
     if op["op"] == "step":
         opts = op["opts"]
         for k in list(opts):
